@@ -155,6 +155,7 @@ class Gen:
         self.hot = live[: cfg["hot"]]
         self.names = sorted(OPS)
         self.weights = [OPS[n].weight for n in self.names]
+        self.queue: list[dict] = []   # follow-up steps of a "twin query" (near-colliding variants of one query)
 
     def _pick_slot(self, cands: list[int]) -> int:
         rng = self.rng
@@ -195,6 +196,12 @@ class Gen:
     def next_step(self, i: int, history: list[dict]) -> dict:
         rng, cfg = self.rng, self.cfg
         client = rng.randrange(cfg["n_clients"])
+        if self.queue:
+            q = self.queue.pop(0)
+            out = list(range(self.next_slot, self.next_slot + MAX_OUT))
+            self.next_slot += MAX_OUT
+            return {"i": i, "c": client, "op": q["op"], "args": list(q["args"]), "p": q.get("p"), "out": out,
+                    "mode": q.get("mode", "typed"), **({"of": q["of"]} if "of" in q else {})}
         script = cfg.get("script") or []
         if i < len(script):
             sc = script[i]
@@ -230,6 +237,13 @@ class Gen:
                     continue
             out = list(range(self.next_slot, self.next_slot + MAX_OUT))
             self.next_slot += MAX_OUT
+            if name == "getitem" and p and isinstance(p.get("idx"), dict) and "nb" in p["idx"] and rng.random() < 0.7:
+                # twin queries: anything keyed by the VALUE of an argument must not confuse equal-but-different
+                # values: np.True_ == 1 and np.False_ == 0, yet a[np.True_] and a[1] are different questions
+                twin = {"idx": int(p["idx"]["nb"])}
+                self.queue.append({"op": "getitem", "args": args, "p": twin})
+                self.queue.append({"op": "getitem", "args": args, "p": p, "mode": "reask", "of": i})
+                self.queue.append({"op": "getitem", "args": args, "p": twin, "mode": "reask", "of": i + 1})
             return {"i": i, "c": client, "op": name, "args": args, "p": p, "out": out,
                     "mode": "fuzzy" if fuzzy else "typed"}
         return {"i": i, "c": client, "op": "props", "args": [sorted(self.world.slots)[0]], "p": None, "out": [],
